@@ -244,6 +244,34 @@ def storage_not_shared(prog: Program, rep: Report, rule: str = "R03.10") -> None
         rep.add(rule, f"{mod.name}.{cls}", "methods of the forcing class", None, "no methods found", "")
 
 
+def memo_invalidation(prog: Program, rep: Report, rule: str = "R03.11") -> None:
+    """A value the forcing keeps for later calls (an attribute that a method looks up before computing and fills
+    afterwards) is dropped on every path of every method that writes something it was computed from: the fields
+    advance in every model step, so an interpolated field kept since the last frame belongs to an earlier time."""
+    from ..alias import memo_attrs, stale_memo_paths
+
+    mod = prog.module(prog.role_module["forcing"])
+    cls = prog.role_class["forcing"]
+    methods = [fi for fi in mod.functions.values() if fi.cls == cls]
+    memos = {}
+    for fi in methods:
+        for m, deps in memo_attrs(fi.node).items():
+            memos.setdefault(m, (fi, set()))[1].update(deps)
+    if not memos:
+        rep.ok(rule, f"{mod.name}.{cls}", "no value is memoised between calls", "none", methods[0].loc() if methods else "", nontrivial=False)
+        return
+    for m, (owner, deps) in sorted(memos.items()):
+        for fi in methods:
+            if fi.name == owner.name:
+                continue
+            try:
+                bad = stale_memo_paths(fi.node, m, deps)
+            except OverflowError:
+                rep.add(rule, fi.qual, f"memo self.{m} (filled in {owner.name})", None, "too many paths to enumerate", fi.loc())
+                continue
+            rep.check(rule, fi.qual, f"memo self.{m} (filled in {owner.name}, computed from {sorted(deps)[:6]}) is dropped on every path that writes its inputs", not bad, what_bad="; ".join(f"line {n.lineno}: `{short(n, 70)}` writes {s_} and the path leaves self.{m} as it was" for n, s_ in bad[:3]) + f": {owner.name} then answers with a value computed from the earlier contents", what_ok="invalidated or not written", loc=fi.loc(bad[0][0]) if bad else fi.loc())
+
+
 def prestart_frame(prog: Program, rep: Report, rule: str = "R03.2") -> None:
     """The frame the constructor primes from is the last one strictly before the start: a frame exactly on the
     start (step 0) must be the *next* frame, which the first update hands over to - were it taken as the pre-start
@@ -604,9 +632,11 @@ def run(prog: Program, rep: Report, tier: str) -> None:
     for o in sub.obligations:
         rep.add("R03.8", o.func, f"[{o.rule}] {o.construct}", o.verdict == "ok" if o.verdict != "undecided" else None, o.what, o.loc)
     rep.rule("R03.10", "an in-place write to a field array reaches one entry of self.fields only (no storage shared between the field in force and the frame handed over later), in every method of the forcing class", 8)
+    rep.rule("R03.11", "a value memoised between calls of the forcing is dropped on every path that writes what it was computed from", 1)
+    storage_not_shared(prog, rep)
+    memo_invalidation(prog, rep)
     file_selection(prog, rep)
     handover_invariant(prog, rep)
-    storage_not_shared(prog, rep)
     prestart_frame(prog, rep)
     sorted_steps(prog, rep)
     fractional(prog, rep)
@@ -644,6 +674,11 @@ AUDIT = [
     Mut("reversal-u-only", R, "            return sample3DUV(-U, -V, X - i0, Y - j0, self.K, self.A, method=method)", "            return sample3DUV(-U, V, X - i0, Y - j0, self.K, self.A, method=method)", rule="R03.3"),
     Mut("frame-idx-counter", R, "            frame_idx[step] = i", "            frame_idx[step] = step_counter", rule="R03.7"),
     Mut("counter-start", R, "    step_counter = -1\n", "    step_counter = 0\n", rule="R03.7"),
+    Mut("init-alias-then-inplace", R, "            self.fields[\"u_new\"] = self.fields[\"u\"].copy()\n", "            self.fields[\"u_new\"] = self.fields[\"u\"]\n", rule="R03.10",
+        more=((R, "        self.fields[\"u\"] = self.fields[\"u\"] - (prestep + 1) * self.fields[\"dU\"]", "        self.fields[\"u\"] -= (prestep + 1) * self.fields[\"dU\"]"),)),
+    Mut("benign-inplace-preroll-with-copy", R, "        self.fields[\"u\"] = self.fields[\"u\"] - (prestep + 1) * self.fields[\"dU\"]", "        self.fields[\"u\"] -= (prestep + 1) * self.fields[\"dU\"]", expect="silent"),
+    Mut("memo-fractional-fields", R, "            U = self.fields[\"u\"] + fractional_step * self.fields[\"dU\"]\n", "            if fractional_step not in self._ff:\n                self._ff[fractional_step] = self.fields[\"u\"] + fractional_step * self.fields[\"dU\"]\n            U = self._ff[fractional_step]\n", rule="R03.11",
+        more=((R, "        self._first_read = True  # True until first file is opened\n", "        self._first_read = True  # True until first file is opened\n        self._ff = {}\n"),)),
     Mut("benign-counter-form", R, "            step_counter += 1\n", "            step_counter = step_counter + 1\n", expect="silent"),
     Mut("benign-local-fields", R, "        if step in self.steps:  # No time interpolation\n            self.fields[\"u\"] = self.fields[\"u_new\"]", "        if step in self.steps:  # No time interpolation\n            logger.debug('frame step')\n            self.fields[\"u\"] = self.fields[\"u_new\"]", expect="silent"),
     Mut("benign-has-next-spelling", R, "            if i + 1 < len(self.steps):  # Need new fields", "            if i < len(self.steps) - 1:  # Need new fields", expect="silent"),
